@@ -50,14 +50,17 @@ fn main() {
             }
         }
         font.set("ToUnicode", Object::Reference(sid));
+        // a CMap the generator rendered from a table must be accepted and used
+        let wf = a.get(4).map(|e| e.tag() == Some("expect")).unwrap_or(false);
+        let reject = |what: &str| if wf { format!("FAIL well-formed CMap {}", what) } else { "ok".to_string() };
         let enc = match font.get_font_encoding(&doc) {
             Ok(e) => e,
             Err(lopdf::Error::ToUnicodeCMap(e)) => {
                 let m = format!("{}", e);
                 let cls = if m.starts_with("invalid code range") { "range" } else { "parse" };
-                return (Sx::tagged("res", vec![Sx::tagged("err", vec![Sx::id(cls)])]), "ok".into());
+                return (Sx::tagged("res", vec![Sx::tagged("err", vec![Sx::id(cls)])]), reject("rejected"));
             }
-            Err(_) => return (Sx::tagged("res", vec![Sx::tagged("err", vec![Sx::id("other")])]), "ok".into()),
+            Err(_) => return (Sx::tagged("res", vec![Sx::tagged("err", vec![Sx::id("other")])]), reject("rejected")),
         };
         let mut gets = vec![];
         let mut got_units: Vec<Option<Vec<u16>>> = vec![];
@@ -71,7 +74,12 @@ fn main() {
                 got_units.push(g);
             }
         } else {
-            return (Sx::tagged("res", vec![Sx::id("notcmap")]), "ok".into());
+            let v = if wf && !a[0].is_id("none") && !matches!(a[0].as_bytes().as_deref(), Some(b"Identity-H") | Some(b"Identity-V")) {
+                "ok".to_string() // an /Encoding other than Identity-H/V is not this property's domain
+            } else {
+                reject("not used as the font's encoding")
+            };
+            return (Sx::tagged("res", vec![Sx::id("notcmap")]), v);
         }
         let mut outs = vec![];
         let mut out_cps: Vec<Option<Vec<u32>>> = vec![];
